@@ -633,7 +633,7 @@ class Pools:
             col = j.get()
             merge(ctx, col)
             tot['python' if is_py else 'compiled'] += col.behaviours
-            if (col.notes_kernel == 'python') != is_py:
+            if (col.notes_kernel == 'python') != (is_py or bool(os.environ.get('TENPY_NO_CYTHON'))):
                 raise core.MachineryError('worker ran with the wrong kernel configuration')
         return tot
 
@@ -798,8 +798,8 @@ def check(ctx):
                 mc_stage(ctx, pools, 'Pipe/window 0..2', 'Pipe',
                          pipe_cfg(seed + 1, 'QuickProfiles', maxpost=1, postrate=6, maxnest=1, nestrate=400, win='WinPos'), 'pipe')
         if not only or 'sim' in only:
-            sim_stage(ctx, 'Pipe/simulate 4 legs + nested', pipe_cfg(seed, 'SimProfiles', maxpost=2, maxnest=1, declmax=0),
-                      num=60 if quick else 1500, depth=16, seed=seed + 3)
+            sim_stage(ctx, 'Pipe/simulate 4 legs + nested', pipe_cfg(seed, 'SimProfiles', maxpost=2, maxnest=1, declmax=0, nestmax=36, nestn=3, nestlegrate=1),
+                      num=15 if quick else 400, depth=16, seed=seed + 3)
     finally:
         pools.close()
     ctx.exhaustive = False
